@@ -257,3 +257,18 @@ Theorem failed_saves_heal : forall b0 l0 s,
      (s_last s = s_version s -> Permutation ex (bm (s_mem s)) /\ Permutation wi (bwild (s_mem s)))).
 Proof. exact failed_saves_heal_lemma. Qed.
 Print Assumptions failed_saves_heal.
+
+(* disk_converges speaks of VERSIONS, never of content, so it holds unchanged for A-B-A
+   histories — the list returns to the content of the file under a newer version and the
+   newer snapshot reaches persist() first: Set a. saved; Remove a. (v2); Set a. (v3);
+   persist v3 (same lines as the file: written all the same, lastPersisted := 3); persist v2
+   (dropped).  Proofs_disk.skipping_equal_content_is_unsound: a persist() that skips v3
+   because its content equals the file without recording its version then writes v2 — the
+   file holds the empty list while the memory holds a. (seeded change C18-8). *)
+Theorem disk_converges_aba_example :
+  steps aba_s0 aba_s5 /\ s_pending aba_s5 = [] /\
+  s_local aba_s1 = Some (snap_bytes (mk_snap 3 [aba_k] [])) /\
+  s_last aba_s5 = s_version aba_s5 /\
+  s_local aba_s5 = Some (snap_bytes (mk_snap (s_version aba_s5) (bm (s_mem aba_s5)) (bwild (s_mem aba_s5)))).
+Proof. exact aba_converges_lemma. Qed.
+Print Assumptions disk_converges_aba_example.
